@@ -133,8 +133,7 @@ for directed in (False, True):
                             or (ids == [0, 2, 3] and strnodes and v is None and not sn and not directed) \
                             or (directed and ids == [0, 1] and not strnodes and (sn, en) == (False, False) and v in (None, 1)) \
                             or (directed and ids == [0, 1, 2] and N == 3 and not strnodes and (sn, en) == (False, False) and v is None and part in (0, 1))
-                        keep = quick or (not directed and N == 3 and ids in ([0, 2, 3], [1, 3, 4, 6]) and (sn, en) == (False, False) and v in (None, 1)) \
-                            or (not directed and N == 4 and not strnodes and (sn, en) == (True, True) and v is None) \
+                        keep = quick or (not directed and N == 3 and ids == [0, 2, 3] and (sn, en) == (False, False) and v in (None, 1)) \
                             or (directed and ids == [0, 1, 2] and N == 3 and not strnodes and (sn, en) == (False, False) and v is None) \
                             or (directed and ids == [0, 1] and v in (None, 1, 0) and (sn, en) != (True, False))
                         if not keep:
@@ -172,7 +171,7 @@ for directed in (False, True):
 def _register_eager():
     from . import h_c13
     for name, c in h_c13.REG.conds.items():
-        if name.startswith("eager_") and name not in REG.conds:
+        if name.startswith("eager_") and name not in REG.conds and "ids01234" not in name:
             REG.add(name, h_c13.T_eager, h_c13.eager_body, cfg=c.cfg, tier=c.tier, timeout=c.timeout, tags=c.tags, twins=1,
                     bounds=c.bounds, what=c.what)
 
